@@ -100,8 +100,18 @@ class Gen:
                 rhs = ("ci", r.choice([1, 2, 3]))
             return ("bin", op, self.int_expr(scope, outer, d - 1), rhs, INT)
         if p < 0.9 and self.f["case"]:
-            return ("case", self.bool_expr(scope, outer, d - 1), self.int_expr(scope, outer, d - 1),
-                    self.int_expr(scope, outer, d - 1), INT)
+            k = r.random()
+            if k < 0.6:
+                return ("case", self.bool_expr(scope, outer, d - 1), self.int_expr(scope, outer, d - 1),
+                        self.int_expr(scope, outer, d - 1), INT)
+            if k < 0.8:      # CASE WHEN .. THEN .. WHEN .. THEN .. [ELSE ..] END
+                arms = [(self.bool_expr(scope, outer, d - 1), self.int_expr(scope, outer, 0)) for _ in range(2)]
+                els = self.int_expr(scope, outer, 0) if r.random() < 0.7 else None
+                return ("casen", arms, els, INT)
+            # CASE x WHEN v THEN .. END
+            arms = [(("ci", r.choice([0, 1, 2, 3])), self.int_expr(scope, outer, 0)) for _ in range(r.choice([1, 2]))]
+            els = self.int_expr(scope, outer, 0) if r.random() < 0.7 else None
+            return ("caseop", self.int_expr(scope, outer, 0), arms, els, INT)
         if p < 0.95 and self.f["neg"]:
             return ("neg", self.int_expr(scope, outer, d - 1), INT)
         if self.f["null_lit"]:
@@ -154,7 +164,13 @@ class Gen:
             return ("inl", lhs, vals, r.random() < 0.35, BOOL)
         if p < 0.9 and self.cols(scope, STR) and self.f["like"]:
             a, c, _ = r.choice(self.cols(scope, STR))
-            return ("bin", "like", ("col", a, c, STR), ("cs", r.choice(["a%", "%b", "_", "%", "a_", ""])), BOOL)
+            e = ("bin", "like", ("col", a, c, STR), ("cs", r.choice(["a%", "%b", "_", "%", "a_", ""])), BOOL)
+            return ("nlike", e, BOOL) if r.random() < 0.3 else e
+        if p < 0.94 and self.f.get("between", True) and self.cols(scope, INT):
+            a, c, _ = r.choice(self.cols(scope, INT))
+            lo = self.int_expr(scope, outer, 0)
+            hi = self.int_expr(scope, outer, 0)
+            return ("between", ("col", a, c, INT), lo, hi, r.random() < 0.3, BOOL)
         if allow_sub and self.subq:
             return self.sub_pred(scope, outer)
         lhs = self.int_expr(scope, outer, 0)
@@ -221,7 +237,9 @@ class Gen:
             g = r.choice(ints)
             gcol = ("col", g[0], g[1], INT)
             other = r.choice(ints)
-            sel = [(gcol, "d1", INT), (("agg", "count*"), "d2", INT),
+            # (count(col), not count(*): an outer count(*) over a derived table that computes count(*) is the
+            # recorded finding Q13)
+            sel = [(gcol, "d1", INT), (("agg", "count", ("col", other[0], other[1], INT), INT), "d2", INT),
                    (("agg", r.choice(["sum", "min", "max"]), ("col", other[0], other[1], INT), INT), "d3", INT)]
             sub = dict(base, sel=[(e, n) for e, n, _ in sel], grp=[gcol], agg=True)
         else:
@@ -365,9 +383,37 @@ class Gen:
         return ("agg", f, e, INT)
 
 
+def desugar(e):
+    """BETWEEN, NOT LIKE and the multi-branch CASE forms in terms of the core operators (the definitions of the
+    SQL standard): the semantics are given for the core."""
+    k = e[0]
+    if k == "between":
+        x, lo, hi, neg = e[1], e[2], e[3], e[4]
+        core = ("bin", "and", ("bin", ">=", x, lo, BOOL), ("bin", "<=", x, hi, BOOL), BOOL)
+        return ("not", core, BOOL) if neg else core
+    if k == "nlike":
+        return ("not", e[1], BOOL)
+    if k == "casen":
+        out = e[2] if e[2] is not None else ("cn", INT)
+        for c, v in reversed(e[1]):
+            out = ("case", c, v, out, INT)
+        return out
+    if k == "caseop":
+        out = e[3] if e[3] is not None else ("cn", INT)
+        for w, v in reversed(e[2]):
+            out = ("case", ("bin", "=", e[1], w, BOOL), v, out, INT)
+        return out
+    return e
+
+
+SUGAR = ("between", "nlike", "casen", "caseop")
+
+
 def has_col(e):
     if not isinstance(e, tuple):
         return False
+    if e[0] in SUGAR:
+        return has_col(desugar(e))
     if e[0] == "col":
         return True
     return any(has_col(x) for x in e[1:] if isinstance(x, tuple))
@@ -380,6 +426,8 @@ def has_outer_join(f):
 
 
 def aliases_of(e, acc):
+    if isinstance(e, tuple) and e[0] in SUGAR:
+        return aliases_of(desugar(e), acc)
     if isinstance(e, tuple):
         if e[0] == "col":
             acc.add(e[1])
@@ -438,6 +486,16 @@ def sql_expr(e):
         return f"({sql_expr(e[1])} is {'not ' if e[2] else ''}null)"
     if k == "case":
         return f"(case when {sql_expr(e[1])} then {sql_expr(e[2])} else {sql_expr(e[3])} end)"
+    if k == "between":
+        return f"({sql_expr(e[1])} {'not ' if e[4] else ''}between {sql_expr(e[2])} and {sql_expr(e[3])})"
+    if k == "nlike":
+        return f"({sql_expr(e[1][2])} not like {sql_expr(e[1][3])})"
+    if k == "casen":
+        arms = " ".join(f"when {sql_expr(c)} then {sql_expr(v)}" for c, v in e[1])
+        return f"(case {arms}{' else ' + sql_expr(e[2]) if e[2] is not None else ''} end)"
+    if k == "caseop":
+        arms = " ".join(f"when {sql_expr(w)} then {sql_expr(v)}" for w, v in e[2])
+        return f"(case {sql_expr(e[1])} {arms}{' else ' + sql_expr(e[3]) if e[3] is not None else ''} end)"
     if k == "inl":
         return f"({sql_expr(e[1])} {'not ' if e[3] else ''}in ({', '.join(lit(v) for v in e[2])}))"
     if k == "insub":
@@ -531,6 +589,8 @@ def from_scope(f, tables):
 def res_expr(e, scopes, tables):
     """scopes: list of scopes, innermost first; each a list of (alias, col)."""
     k = e[0]
+    if k in SUGAR:
+        return res_expr(desugar(e), scopes, tables)
     if k == "col":
         for d, sc in enumerate(scopes):
             if (e[1], e[2]) in sc:
